@@ -106,7 +106,7 @@ StepMM(ex, rec, st) ==
 XNew(ex, i)  == [ex EXCEPT !.xb = EmptyBlock(i, ex.bps[i + 1])]
 XSet(ex, i)  == IF ItemCount(ex.xb) > 0 THEN [s |-> ex, ok |-> FALSE]
                 ELSE [s |-> [ex EXCEPT !.xb = [@ EXCEPT !.bpi = i, !.bp = ex.bps[i + 1]]], ok |-> TRUE]
-XClear(ex)   == [ex EXCEPT !.xb = EmptyBlock(ex.xb.bpi, ex.xb.bp)]
+XClear(ex)   == [ex EXCEPT !.xb = EmptyBlock(IF XBug = "xclear_drops_index" THEN 0 ELSE ex.xb.bpi, ex.xb.bp)]   \* (deviation: clear() forgets the stated set)
 XAdd(ex, kind, rec, st) ==
     LET b1 == CASE kind = "qr" -> BlkQR(ex.xb, rec, st) [] kind = "aec" -> BlkAEC(ex.xb, rec, st) [] OTHER -> BlkMM(ex.xb, rec, st)
     IN [s |-> [ex EXCEPT !.xb = b1], full |-> BlkFullAfter(ex.xb, b1, kind)]
